@@ -331,6 +331,13 @@ class Exec:
                 follow = self._header_decided(p, b, pred)
                 if len(p.blocks) > 6000:
                     raise Broken("irx(auto): path too long in %s" % f.name)
+                if not follow:
+                    sp = self._header_split(p, b, pred)
+                    if sp:
+                        # the exit test depends on a value with a small finite range on this path (a residue): one case per value
+                        for q in self._split(p, sp):
+                            work.append((b, pred, q, "fork"))
+                        return
             if b in self.heads and pred != "fresh" and not self.unroll and not follow:
                 L = self.heads[b]
                 if pred in L["blocks"]:
@@ -481,6 +488,47 @@ class Exec:
                 return False
         c = q.env.get(t.ops[0]) if t.ops[0][0] == "i" else self.val(q, t.ops[0])
         return self._decide(q, c) is not None
+
+    def _header_split(self, p, b, pred):
+        """(symbol, candidate values) if the undecided header test compares linear forms over one symbol of small finite range"""
+        f = self.f
+        t = f.term(b)
+        if t.op != "br" or not t.get("cond"):
+            return None
+        q = p.clone()
+        for iid in f.blocks[b].insts:
+            I = f.insts[iid]
+            if I.op == "phi":
+                for inc, pb in I.get("inc"):
+                    if pb == pred:
+                        q.env[("i", I.id)] = self.val(p, tuple(inc))
+                continue
+            if I.is_dbg() or I.is_lifetime() or I.op in ("br", "ret", "switch", "unreachable"):
+                continue
+            if I.op in ("store", "call"):
+                return None
+            try:
+                self._step(q, I)
+            except Broken:
+                return None
+        c = q.env.get(t.ops[0]) if t.ops[0][0] == "i" else None
+        if not (isinstance(c, tuple) and c and c[0] == "icmp"):
+            return None
+        _, pr, a, bb = c
+        if is_word(a) or is_word(bb):
+            return None
+        d = self.subst(q, a.add(bb, -1))
+        syms = [s_ for s_ in d if s_ != 1]
+        if len(syms) != 1 or not (isinstance(syms[0], tuple) and syms[0][0] in ("hd", "n", "fld", "rem")):
+            return None
+        key = Lf({syms[0]: 1})
+        lo, hi, excl = self._range(q, key)
+        if hi is None or hi - lo >= 64:
+            return None
+        cand = [x for x in range(lo, hi + 1) if x not in excl]
+        if 1 < len(cand) <= self.split_max:
+            return (syms[0], cand)
+        return None
 
     def _auto_havoc(self, p, L):
         """everything the loop (incl. nested loops and callees given pointers) may write becomes unknown at the head"""
